@@ -236,11 +236,11 @@ Fixpoint scan_number (cf : cfg) (n : nat) (acc : bytes) (s : ps) : bytes * ps :=
       else (acc, s)
   end.
 
-Definition jv_of_number (n : number) : option jv :=
+Definition jv_of_number (cf : cfg) (n : number) : option jv :=
   match n with
   | NumUInt z | NumSInt z => Some (JInt z)
   | NumFloat f => Some (JFloat f)
-  | NumDouble f => Some (JDouble f)
+  | NumDouble f => Some (jv_of_double (use_double cf) f)
   | NumInvalid | NumFault => None
   end.
 
@@ -249,7 +249,7 @@ Definition parse_numeric_value (cf : cfg) (s : ps) : code * jv * ps :=
   (* scan_number stops without loading when 63 characters are stored; the C++ loop has
      already loaded the next character at that point *)
   let s := if Nat.eqb (length buf) 63 then snd (current s) else s in
-  match jv_of_number (parse_number cf buf) with
+  match jv_of_number cf (parse_number cf buf) with
   | Some v => (Ok, v, s)
   | None => (InvalidInput, JNull, s)
   end.
